@@ -4,7 +4,9 @@ import (
 	"bytes"
 	"fmt"
 	"reflect"
+	"sync"
 	"time"
+	"verif/mcbor"
 
 	psatoken "github.com/veraison/psatoken"
 	"verif/engine/choice"
@@ -51,6 +53,11 @@ func c08Eval(c *choice.Ctx, st *Stats, a *refmodel.Claims, signing bool) {
 			} else {
 				c.Failf(fmt.Sprintf("C08:%s:lets-invalid-through:P%d:%s", name, a.P, cls), "gate %s succeeded although Validate() fails with: %v\n%s", name, verr, desc)
 			}
+		}
+		if !failed && !a.Valid() {
+			// "whenever validation of the claims-set fails": also against the rules themselves, not only against what
+			// Validate() happens to answer
+			c.Failf(fmt.Sprintf("C08:%s:lets-through-what-the-rules-reject:P%d:%s", name, a.P, cls), "gate %s succeeded for a claims-set the profile's rules reject (%s); Validate() says %v\n%s", name, cls, verr, desc)
 		}
 		if failed && leaked {
 			c.Failf(fmt.Sprintf("C08:%s:emits-on-failure:P%d", name, a.P), "gate %s failed but emitted bytes / attached or returned an object\n%s", name, desc)
@@ -152,6 +159,34 @@ func c08Eval(c *choice.Ctx, st *Stats, a *refmodel.Claims, signing bool) {
 			}
 		}
 	}
+	// 4c the same on an Evidence that decoded a token with a populated unprotected header before: whatever the
+	//    signing entry points keep of the old envelope, the two keep alike
+	if valid && errS == nil && errV == nil {
+		mk := func() *psatoken.Evidence {
+			e := &psatoken.Evidence{}
+			if e.UnmarshalCOSE(append([]byte{}, c08UsedToken()...)) != nil {
+				return nil
+			}
+			e.Claims = x
+			return e
+		}
+		if eS, eV := mk(), mk(); eS != nil && eV != nil {
+			tS, e1 := eS.Sign(k.Signer())
+			tV, e2 := eV.ValidateAndSign(k.Signer())
+			st.Trans.Add(2)
+			if (e1 == nil) != (e2 == nil) {
+				c.Failf("C08:ValidateAndSign:differs-from-sibling:used-evidence", "Sign err=%v, ValidateAndSign err=%v", e1, e2)
+			} else if e1 == nil {
+				v1, p1 := viewSign1(tS)
+				v2, p2 := viewSign1(tV)
+				if p1 != nil || p2 != nil || v1.arr == nil || v2.arr == nil || len(v1.arr.Items) != 4 || len(v2.arr.Items) != 4 {
+					c.Failf("C08:ValidateAndSign:differs-from-sibling:used-evidence", "tokens are not 4-arrays: %v %v", p1, p2)
+				} else if !bytes.Equal(v1.payload, v2.payload) || !bytes.Equal(v1.prot, v2.prot) || !bytes.Equal(mcbor.Encode(v1.arr.Items[1]), mcbor.Encode(v2.arr.Items[1])) {
+					c.Failf("C08:ValidateAndSign:differs-from-sibling:used-evidence", "on an Evidence that decoded a token with unprotected headers before, Sign and ValidateAndSign emit different envelopes\n Sign            %s\n ValidateAndSign %s", v1.arr.Items[1].Diag(), v2.arr.Items[1].Diag())
+				}
+			}
+		}
+	}
 	// 4b the claims attached by SetClaims are changed in place afterwards: ValidateAndSign must judge what it signs
 	if base, berr := realise(c08ValidBase(a)); berr == nil && reflect.TypeOf(base) == reflect.TypeOf(x) {
 		ev3 := &psatoken.Evidence{}
@@ -184,6 +219,20 @@ func c08Eval(c *choice.Ctx, st *Stats, a *refmodel.Claims, signing bool) {
 	st.Outcome(map[bool]string{true: "valid+signed", false: "invalid+signed"}[valid])
 }
 
+var c08UsedOnce sync.Once
+var c08Used []byte
+
+// c08UsedToken: a genuine ES384 token whose unprotected header carries a key id and a content type.
+func c08UsedToken() []byte {
+	c08UsedOnce.Do(func() {
+		k := fixtures.Get("ES384", 1)
+		prot := protHeader("ES384")
+		pl := mcbor.Encode(wireTree(c02Claims()[3], true))
+		c08Used = envelope(prot, mcbor.M(mcbor.U(4), mcbor.B([]byte("key-7")), mcbor.U(3), mcbor.T("application/eat+cwt")), pl, rawSign(k, "ES384", prot, pl))
+	})
+	return c08Used
+}
+
 // c08ValidBase returns a valid claims-set of the same profile and canonical name as a.
 func c08ValidBase(a *refmodel.Claims) *refmodel.Claims {
 	cl := c02Claims()
@@ -210,6 +259,107 @@ func init() {
 				a.Profile = sp(ExtStrictName)
 			}
 			c08Eval(c, c08stats, a, true)
+		}, nil
+	}
+	// a component object the caller still holds is made malformed AFTER the claims-set was validated / attached:
+	// every gate judges the claims-set as it is now
+	Scenarios["c08.component-changed-after-validation"] = func() (choice.Scenario, func() any) {
+		k := fixtures.Get("ES256", 1)
+		return func(c *choice.Ctx) {
+			p := 1 + c.Choose("profile", 2)
+			a := *c02Claims()[map[int]int{1: 2, 2: 0}[p]]
+			a.Comps = []*refmodel.Comp{okComp(1, 32), fullComp(2, 48)}
+			filled := c.Choose("filled-by", 3)
+			var x psatoken.IClaims
+			var held []*psatoken.SwComponent
+			var err error
+			switch filled {
+			case 0: // SetSoftwareComponents with component objects the caller keeps
+				base := a
+				base.Comps = []*refmodel.Comp{okComp(9, 32)}
+				if x, err = buildBySetters(&base); err != nil {
+					return
+				}
+				var list []psatoken.ISwComponent
+				for _, sc := range a.Comps {
+					rc := realComp(sc)
+					held = append(held, rc)
+					list = append(list, rc)
+				}
+				if x.SetSoftwareComponents(list) != nil {
+					return
+				}
+			case 1: // the container assembled with Add
+				if x, err = realise(&a); err != nil {
+					return
+				}
+				cont, ptrs, cerr := realCompsPtrs(&a)
+				if cerr != nil || ptrs == nil {
+					return
+				}
+				held = ptrs
+				switch t := x.(type) {
+				case *psatoken.P1Claims:
+					t.SwComponents = cont
+				case *psatoken.P2Claims:
+					t.SwComponents = cont
+				}
+			case 2: // decoded; the component objects come from the getter
+				if x, err = psatoken.DecodeClaimsFromCBOR(mcbor.Encode(wireTree(&a, true))); err != nil {
+					return
+				}
+				scs, gerr := x.GetSoftwareComponents()
+				if gerr != nil {
+					return
+				}
+				for _, sc := range scs {
+					if pc, ok := sc.(*psatoken.SwComponent); ok {
+						held = append(held, pc)
+					}
+				}
+			}
+			if len(held) != 2 || x.Validate() != nil {
+				return
+			}
+			ev := &psatoken.Evidence{}
+			if ev.SetClaims(x) != nil {
+				return
+			}
+			if c.Choose("signed-once-before", 2) == 1 {
+				_, _ = ev.ValidateAndSign(k.Signer())
+			}
+			_, _ = x.GetSoftwareComponents()
+			// the change
+			which := c.Choose("component", 2)
+			switch c.Choose("made-malformed-by", 3) {
+			case 0:
+				short := pat(31, 3)
+				held[which].MeasurementValue = &short
+			case 1:
+				held[which].SignerID = nil
+			case 2:
+				held[which].MeasurementValue = nil
+			}
+			c08stats.StateStr(fmt.Sprint("comp-changed", p, filled, c.Choices))
+			tag := fmt.Sprintf("P%d:filled-by-%d", p, filled)
+			check := func(name string, failed bool) {
+				c08stats.Trans.Add(1)
+				if !failed {
+					c.Failf("C08:"+name+":component-changed-after-validation:"+tag, "%s succeeded although a component of the claims-set was made malformed after the earlier validation", name)
+				}
+			}
+			check("Validate", x.Validate() != nil)
+			_, e1 := psatoken.ValidateAndEncodeClaimsToCBOR(x)
+			check("ValidateAndEncodeClaimsToCBOR", e1 != nil)
+			_, e2 := psatoken.ValidateAndEncodeClaimsToJSON(x)
+			check("ValidateAndEncodeClaimsToJSON", e2 != nil)
+			_, e3 := ev.ValidateAndSign(k.Signer())
+			check("ValidateAndSign", e3 != nil)
+			check("SetClaims", (&psatoken.Evidence{}).SetClaims(x) != nil)
+			if enc, e := psatoken.EncodeClaimsToCBOR(x); e == nil {
+				_, e4 := psatoken.DecodeAndValidateClaimsFromCBOR(enc)
+				check("DecodeAndValidateClaimsFromCBOR(of its plain encoding)", e4 != nil)
+			}
 		}, nil
 	}
 	for _, p := range []int{1, 2} {
@@ -265,6 +415,7 @@ func init() {
 				exploreChoice(r, fmt.Sprintf("c08.complist.p%d.b0", p), 3, dl)
 			}
 		}
+		exploreChoice(r, "c08.component-changed-after-validation", -1, dl)
 		exploreChoice(r, "c08.strict-profile", map[bool]int{false: 2, true: 3}[thorough(r)], dl)
 		exploreChoiceOpts(r, registerAfterPriorCalls("c08.coarse.cheap.p2.b1"), 2, dl, 1)
 		exploreChoiceOpts(r, registerAfterPriorCalls("c08.coarse.cheap.p1.b1"), 2, dl, 1)
